@@ -59,9 +59,10 @@ def run_sqlite_histories(ck, sq, Event, histories, prop_index, prefix):
             continue
         r.name = name
         v = lib.oracles(r)[prop_index]
-        seen = set()
+        seen = ck.__dict__.setdefault("_reported_signatures", set())
         for sig, desc in v:
-            if sig in seen:
+            if sig in seen:          # one shrunk replay per kind of failure is enough
+                ck.count(prefix + "further-failing-histories:" + sig)
                 continue
             seen.add(sig)
             steps = shrink_history(sq, Event, lazy, r.steps, sig, prop_index)
